@@ -138,6 +138,7 @@ func execute(p *Program, s *Sched, o execOpts) *Outcome {
 	if out.Viol != nil {
 		return out
 	}
+	defer api.Release()
 	m := model.New(p.Hot, vs.Epoch, adapt.EffDefault(p.Spec), p.Spec.CB)
 	m.Tick = p.Tick
 	noexp := model.NoExpiration
